@@ -393,23 +393,44 @@ theorem filter_family_hset (x : Headers) (k v : String) (hk : stripSet.contains 
 /-- the forwarded family as the upstream receives it: only what rewriteRequest creates -/
 theorem upstreamFwd_eq (h : Headers) (r : Req) :
     upstreamFwd h r =
-      if hget h "X-Forwarded-For" ≠ "" ∨ hget h "X-Forwarded-Proto" ≠ "" ∨ hget h "X-Forwarded-Host" ≠ "" then
-        [("X-Forwarded-For", if hget h "X-Forwarded-For" = "" then ipFromHostPort r.remoteAddr
-            else hget h "X-Forwarded-For" ++ ", " ++ ipFromHostPort r.remoteAddr),
+      if joinList (hvalues h "X-Forwarded-For") ≠ "" ∨ hget h "X-Forwarded-Proto" ≠ "" ∨
+          hget h "X-Forwarded-Host" ≠ "" then
+        [("X-Forwarded-For", if joinList (hvalues h "X-Forwarded-For") = "" then ipFromHostPort r.remoteAddr
+            else joinList (hvalues h "X-Forwarded-For") ++ ", " ++ ipFromHostPort r.remoteAddr),
          ("X-Forwarded-Proto", orElse (hget h "X-Forwarded-Proto") (proto r)),
          ("X-Forwarded-Host", orElse (hget h "X-Forwarded-Host") r.host)]
       else
-        [("Forwarded", if hget h "Forwarded" = "" then
+        [("Forwarded", if joinList (hvalues h "Forwarded") = "" then
             "for=" ++ ipFromHostPort r.remoteAddr ++ ";host=" ++ r.host ++ ";proto=" ++ proto r
-          else hget h "Forwarded" ++ ", " ++
+          else joinList (hvalues h "Forwarded") ++ ", " ++
             ("for=" ++ ipFromHostPort r.remoteAddr ++ ";host=" ++ r.host ++ ";proto=" ++ proto r))] := by
   unfold upstreamFwd upstreamHeaders
   simp only [Bool.or_eq_true, decide_eq_true_eq, or_assoc]
-  by_cases hc : hget h "X-Forwarded-For" ≠ "" ∨ hget h "X-Forwarded-Proto" ≠ "" ∨ hget h "X-Forwarded-Host" ≠ ""
+  by_cases hc : joinList (hvalues h "X-Forwarded-For") ≠ "" ∨ hget h "X-Forwarded-Proto" ≠ "" ∨
+      hget h "X-Forwarded-Host" ≠ ""
   · rw [if_pos hc, if_pos hc, filter_family_hset _ _ _ (by decide), filter_family_hset _ _ _ (by decide),
       filter_family_hset _ _ _ (by decide), family_gone]
     simp [strip]
   · rw [if_neg hc, if_neg hc, filter_family_hset _ _ _ (by decide), family_gone]
     simp [strip]
+
+/-- `Header.Values` on the canonicalised lines = the values of all lines with that name, any casing -/
+theorem hvalues_canonHeaders (w : Headers) (K : String) (hK : K ∈ stripSet) :
+    hvalues (canonHeaders w) K = allCI w K := by
+  obtain ⟨hv, hc⟩ := stripSet_canonical K hK
+  unfold hvalues allCI canonHeaders
+  rw [List.filter_map, List.map_map]
+  have : ((fun kv : String × String => kv.1 == K) ∘ fun kv : String × String => (canonKey kv.1, kv.2))
+      = fun kv => eqIgnoreCase kv.1 K := by
+    funext kv; simp [Function.comp, canonKey_beq K hv hc]
+  rw [this]
+  rfl
+
+/-- the upstream of a request whose lines all reach rewriteRequest (trusted peer) -/
+theorem upstreamFwd_canonHeaders (r : Req) : upstreamFwd (canonHeaders r.wire) r = extendedUpstream r := by
+  rw [upstreamFwd_eq]
+  simp only [extendedUpstream, ownForwarded, peerIP]
+  rw [hvalues_canonHeaders _ "X-Forwarded-For" (by decide), hvalues_canonHeaders _ "Forwarded" (by decide),
+    hget_canonHeaders _ "X-Forwarded-Proto" (by decide), hget_canonHeaders _ "X-Forwarded-Host" (by decide)]
 
 end Heimdall.Fwd
